@@ -13,8 +13,8 @@ package c16
 //     descriptors of the process are back at the baseline taken when the
 //     manager was up and idle.
 //
-// Wall-clock guards: 100 s (>= 100 x the healthy value of the removal, ~ 20 x
-// that of the idle disconnect) and only together with corroboration — the
+// Wall-clock guards: 60 s (60 x the healthy value of the removal — the next
+// tick —, >= 10 x that of the idle disconnect) and only together with corroboration — the
 // harness runs its own 1 s ticker in the same process and requires it to have
 // fired at least 30 times, and lal's own predicates (Group.IsInactive, the
 // session still listed by StatGroup) must agree; otherwise the case is
@@ -342,7 +342,7 @@ func startTicker() *harnessTicker {
 func (h *harnessTicker) ticks() int64 { return atomic.LoadInt64(&h.n) }
 func (h *harnessTicker) close()       { close(h.stop); h.wg.Wait() }
 
-const l3Guard = 100 * time.Second
+const l3Guard = 60 * time.Second
 const l3MinTicks = 30
 
 // ---------------------------------------------------------------------------
